@@ -77,7 +77,7 @@ def main():
                 r = subprocess.run(["python3", "check.py", p, "--tier", "quick"], cwd=vcopy, stdout=subprocess.PIPE, stderr=subprocess.STDOUT, env=env)
                 out = r.stdout.decode(errors="replace")
                 viol = [l for l in out.split("\n") if l.startswith("VIOLATION")]
-                kind = "none"
+                kind = "none" if r.returncode == 0 else "check-crashed"
                 if viol:
                     kind = "no-failing-input-found" if all("no-failing-input-found" in v for v in viol) else "failing-input"
                 res["checks"][p] = {"exit": r.returncode, "verdict": kind, "wall_s": round(time.time() - t0, 1)}
